@@ -117,11 +117,22 @@ class MyTypedTree(TypedTree):
         return obj_deserialize_mapper(parent, data)
 
 
+def obj_deserialize_mapper_consuming(parent, data):
+    """A mapper that consumes the dict it is given (legal: the dict is the mapper's input)."""
+    guid = data.pop("data_id")
+    typ = data.pop("type")
+    if typ == "falsy":
+        return FalsyItem(data.pop("name"), guid=guid)
+    if typ == "person":
+        return Person(data.pop("name"), age=data.pop("age"), guid=guid)
+    return Department(data.pop("name"), guid=guid)
+
+
 def str_mapper(parent, data):
     return data["str"]
 
 
-PROFILES = ["str", "obj", "obj_falsy", "dictwrap", "derived", "typed_str", "typed_obj", "typed_derived", "fs"]
+PROFILES = ["str", "obj", "obj_falsy", "obj_pop", "dictwrap", "derived", "typed_str", "typed_obj", "typed_derived", "fs", "fs_plain"]
 
 
 class Profile:
@@ -136,8 +147,10 @@ class Profile:
         n = self.name
         if n == "str":
             return Tree("T")
-        if n in ("obj", "obj_falsy"):
+        if n in ("obj", "obj_falsy", "obj_pop"):
             return Tree("T", calc_data_id=_calc_id)
+        if n == "fs_plain":
+            return Tree("T")
         if n == "dictwrap":
             return Tree("T")
         if n == "derived":
@@ -151,7 +164,7 @@ class Profile:
         return FileSystemTree("T")
 
     def cls(self):
-        return {"str": Tree, "obj": Tree, "obj_falsy": Tree, "dictwrap": Tree, "derived": MyTree, "typed_str": TypedTree,
+        return {"str": Tree, "obj": Tree, "obj_falsy": Tree, "obj_pop": Tree, "fs_plain": Tree, "dictwrap": Tree, "derived": MyTree, "typed_str": TypedTree,
                 "typed_obj": TypedTree, "typed_derived": MyTypedTree, "fs": FileSystemTree}[self.name]
 
     def data(self, label):
@@ -162,14 +175,14 @@ class Profile:
             d = label
         elif n == "obj_falsy":
             d = FalsyItem(label, guid="f-" + label)
-        elif n in ("obj", "derived", "typed_obj", "typed_derived"):
+        elif n in ("obj", "obj_pop", "derived", "typed_obj", "typed_derived"):
             if label in PERSON_LABELS:
                 d = Person(label, age=20 + LABELS.index(label), guid="p-" + label)
             else:
                 d = Department(label, guid="d-" + label)
         elif n == "dictwrap":
             d = DictWrapper({"name": label, "n": len(label)})
-        else:
+        else:  # fs, fs_plain
             if label in PERSON_LABELS:
                 d = FileSystemEntry(label, size=10 * LABELS.index(label), mdate=1.5e9 + LABELS.index(label) + 0.25)
             else:
@@ -201,8 +214,10 @@ class Profile:
     # -- mappers ----------------------------------------------------------------------
     def save_mapper(self):
         n = self.name
-        if n in ("obj", "typed_obj", "obj_falsy"):
+        if n in ("obj", "typed_obj", "obj_falsy", "obj_pop"):
             return obj_serialize_mapper
+        if n == "fs_plain":
+            return FileSystemTree.serialize_mapper  # the class mappers used as callbacks on a plain Tree
         if n == "dictwrap":
             return DictWrapper.serialize_mapper
         return None
@@ -211,6 +226,10 @@ class Profile:
         n = self.name
         if n in ("obj", "typed_obj", "obj_falsy"):
             return obj_deserialize_mapper
+        if n == "obj_pop":
+            return obj_deserialize_mapper_consuming
+        if n == "fs_plain":
+            return FileSystemTree.deserialize_mapper
         if n == "dictwrap":
             return DictWrapper.deserialize_mapper
         if n in ("str", "typed_str"):
@@ -236,7 +255,7 @@ class Profile:
         return d
 
     def id_is_value_derived(self):
-        return self.name not in ("dictwrap", "fs")
+        return self.name not in ("dictwrap", "fs", "fs_plain")
 
     def view(self, tree):
         w = walk(tree)
@@ -273,13 +292,13 @@ class Profile:
             keys.append("str")
         if self.typed:
             keys.append("kind")
-        if n in ("obj", "derived", "typed_obj", "typed_derived"):
+        if n in ("obj", "obj_pop", "derived", "typed_obj", "typed_derived"):
             keys += ["type", "name", "age"]
         if n == "obj_falsy":
             keys += ["type", "name"]
         if n == "dictwrap":
             keys += ["name", "n"]
-        if n == "fs":
+        if n in ("fs", "fs_plain"):
             keys += ["n", "s", "m", "d"]
         return keys
 
@@ -291,11 +310,11 @@ class Profile:
             out.append("str")
         if self.typed:
             out.append("kind")
-        if n in ("obj", "derived", "typed_obj", "typed_derived", "obj_falsy"):
+        if n in ("obj", "obj_pop", "derived", "typed_obj", "typed_derived", "obj_falsy"):
             out += ["type", "name"]
         if n == "dictwrap":
             out += ["name"]
-        if n == "fs":
+        if n in ("fs", "fs_plain"):
             out += ["n"]
         return out
 
@@ -393,6 +412,10 @@ def config(draw, profile_name):
     p = Profile(profile_name)
     cfg = {}
     km = draw(st.sampled_from(["default", "default", "off", "custom"]))
+    if profile_name == "fs_plain" and km == "default":
+        # the mapper emits the literal keys "s" (size) and a plain Tree's default key_map would map "s" back to
+        # "str" on load: FileSystemTree sets DEFAULT_KEY_MAP = {} for that reason, a plain Tree must pass it
+        km = "off"
     if km == "off":
         cfg["key_map"] = False
     elif km == "custom":
@@ -425,7 +448,7 @@ def tree_spec(draw, profile_name, max_nodes=14):
     if p.allows_explicit_ids():
         gen.localize_ids(spec, LABELS)
         gen.fix_sibling_ids(spec)
-    if profile_name == "fs":
+    if profile_name in ("fs", "fs_plain"):
         # files (person labels) cannot have children: keep the data plausible
         def prune(nodes):
             for n in nodes:
